@@ -57,6 +57,8 @@ def resolve_ocs(sym, mrl, size):
 
 
 def ocs_class(sym):
+    if sym[0] == 'default':
+        return 'default'
     return '%s%+d' % (sym[0], sym[1]) if sym[0] != 'abs' else ('abs_big' if sym[1] >= 1 << 16 else 'abs')
 
 
